@@ -65,7 +65,10 @@ type gen struct {
 // constructs lists the source constructs on which the unchanged formatter is known to violate
 // the property (one entry per recorded finding).  Each is generated ONLY in its own family
 // "k:<construct>"; everywhere else the generator avoids it, so any failure elsewhere is new.
-var constructs = []string{"lc-blockend", "opt-spelling", "empty-comment", "adjacent-comment", "empty-first", "empty-body"}
+// REPAIRED constructs ("lc-blockend": // comment containing "*/" printed in-line; "empty-first":
+// empty statement right after the syntax line; "empty-body": body of empty statements only) are
+// generated in EVERY family; their k: families remain as stress families with a higher rate.
+var constructs = []string{"opt-spelling", "empty-comment", "adjacent-comment"}
 
 const emptyMark = "\x01;"
 
@@ -663,13 +666,11 @@ func (g *gen) maybeEmpty() {
 	}
 }
 
-// maybeEmptyBodyStart emits empty statements right after an opening brace; a body made of
-// nothing but empty statements is a known-defect construct, so the caller says whether real
-// elements follow.
+// maybeEmptyBodyStart emits empty statements right after an opening brace, also when no real
+// element follows (a body made of nothing but empty statements: repaired finding, see constructs).
 func (g *gen) maybeEmptyBodyStart(hasElements bool) {
-	if hasElements || g.on["empty-body"] {
-		g.maybeEmpty()
-	}
+	_ = hasElements
+	g.maybeEmpty()
 }
 
 // ---------------------------------------------------------------- declarations
@@ -1130,7 +1131,7 @@ func genProgram(r *hx.Rand, family string) *program {
 		g.str(g.syntax, 3)
 		g.t(";")
 	}
-	if g.on["empty-first"] {
+	if g.on["empty-first"] || r.Chance(1, 12) {
 		g.t(emptyMark)
 	}
 	if r.Chance(4, 5) {
@@ -1324,9 +1325,6 @@ func (g *gen) comment() (text string, needsNewline bool) {
 	g.cid++
 	id := fmt.Sprintf("c%d", g.cid)
 	k := g.r.Intn(14)
-	if k == 7 && !g.on["lc-blockend"] {
-		k = 8
-	}
 	if g.on["lc-blockend"] && g.r.Chance(1, 3) {
 		k = 7
 	}
